@@ -253,6 +253,9 @@ func (f *SecretFactory) New(b []byte) (securememory.Secret, error) {
 	if err := f.memcall().Protect(secret.bytes, memcall.NoAccess()); err != nil {
 		// Shouldn't happen, but free up the resources if it does. We intentionally
 		// ignore the errors from the cleanup and return the reason why we got here.
+		// The pages still hold the caller's secret: zero them before they are unlocked and released.
+		core.Wipe(secret.bytes)
+
 		if err2 := memcall.Clean(f.memcall(), secret.bytes); err2 != nil {
 			err = errors.Wrap(err, err2.Error())
 		}
